@@ -160,7 +160,8 @@ def name_class(n):
 
 def check_quoted(case) -> Outcome:
     import pandas as pd
-    from formulaic import Formula, model_matrix
+    from formulaic import Formula
+    from ..libio import model_matrix
     from formulaic.errors import FormulaParsingError
 
     out = Outcome()
